@@ -59,6 +59,8 @@ func init() {
 		Trusted: trust("A-SORT", "A-PS")})
 	add(&propSpec{ID: "C18", Level: "proof", Funcs: append([]string{"bexpr.Evaluator.Evaluate", "bexpr.getValue"}, optFuncs...),
 		Trusted: trust("A-PS", "A-HOOK")})
+	add(&propSpec{ID: "C20", Level: "translation_validation", Extras: []string{"table:peg"}, NoBattery: true,
+		Trusted: []string{"A-GEN"}})
 	add(&propSpec{ID: "C08", Level: "proof", Funcs: []string{"bexpr.getValue", "bexpr.evaluateNotPresent", "bexpr.doMatchIsEmpty", "bexpr.doMatchEqual", "bexpr.doMatchIn", "bexpr.doMatchMatches",
 		"bexpr.doEqualString", "bexpr.evaluateCollectionExpression$1", "bexpr.Evaluator.Evaluate", "bexpr.Filter.Execute"},
 		Extras: []string{"read:no-struct-content"}, Trusted: trust("A-PS", "A-HOOK", "A-EXT-PURE")})
